@@ -352,6 +352,43 @@ def compare(rule: Rule, model: Model, f: FuncInfo, ref_src: str, key: str, *,
                     gm[(k, s, c)] -= 1
                     rm[hit] -= 1
         gm, rm = +gm, +rm
+        if gm != rm:
+            # the same effect split over several branches on one side and written once on the other (`if a: f() elif b: .. else: f()`
+            # vs. `if not a and b: .. ; f()`): per effect text, the leftover conditions of either side must be pairwise exclusive
+            # (the effect happens at most once per run) and cover the same cases -- decided on one joint truth table
+            extra_c, missing_c = gm - rm, rm - gm
+            for (k, s) in sorted({(k, s) for (k, s, c) in extra_c} & {(k, s) for (k, s, c) in missing_c}):
+                gk = [(k2, s2, c2) for (k2, s2, c2) in extra_c.elements() if (k2, s2) == (k, s)]
+                rk = [(k2, s2, c2) for (k2, s2, c2) in missing_c.elements() if (k2, s2) == (k, s)]
+
+                def bools(keys, effs_, memo):
+                    out, used = [], set()
+                    for key3 in keys:
+                        e_ = next((e for k3, s3, c3, e in effs_ if (k3, s3, c3) == key3 and id(e) not in used), None)
+                        if e_ is None or memo.get(id(e_)) is None:
+                            return None
+                        used.add(id(e_))
+                        out.append(memo[id(e_)])
+                    return out
+                bg_, br_ = bools(gk, got_e, gb), bools(rk, ref_e, rb)
+                if not bg_ or not br_:
+                    continue
+                t = pr._tables(bg_ + br_)
+                if t is None:
+                    continue
+                tg, tr = t[1][:len(bg_)], t[1][len(bg_):]
+                excl = all(a & b == 0 for grp in (tg, tr) for i_, a in enumerate(grp) for b in grp[i_ + 1:])
+                ug = ur = 0
+                for a in tg:
+                    ug |= a
+                for a in tr:
+                    ur |= a
+                if excl and ug == ur:
+                    for key3 in gk:
+                        gm[key3] -= 1
+                    for key3 in rk:
+                        rm[key3] -= 1
+            gm, rm = +gm, +rm
     ok = gm == rm
     ok_all &= ok
     msg = ""
